@@ -26,6 +26,7 @@ func (r Result) String() string { return [...]string{"unsat", "sat", "unknown"}[
 // Solver drives one SMT solver process over a pipe.
 type Solver struct {
 	Kind      string // "z3", "z3-new", "cvc5"
+	TT        *TermTable // for compact definitions of single-variable terms
 	TimeoutMS int
 	Seed      int
 	cmd       *exec.Cmd
@@ -170,6 +171,9 @@ func (s *Solver) define(t *Term) {
 		i int
 	}
 	mark := s.gen
+	if s.compact(t, mark) {
+		return
+	}
 	stack := []fr{{t, 0}}
 	for len(stack) > 0 {
 		f := &stack[len(stack)-1]
@@ -183,7 +187,7 @@ func (s *Solver) define(t *Term) {
 				s.define(c)
 				continue
 			}
-			if c.gen != mark {
+			if c.gen != mark && !s.compact(c, mark) {
 				stack = append(stack, fr{c, 0})
 			}
 			continue
@@ -500,4 +504,52 @@ func (s *Solver) ResetBase() {
 	s.frames = [][]*Term{nil}
 	s.sentLits = []int{0}
 	s.depth = 0
+}
+
+// compact defines a large term that depends on a single 8-bit variable as a
+// reduced decision tree over the variable's bits (computed from the term's
+// 256-entry value table) instead of its syntactic structure: deep ite chains
+// from table lookups are what the solver is slowest on.
+func (s *Solver) compact(t *Term, mark int) bool {
+	if s.TT == nil || t.sz < 48 || t.sort == SortInt {
+		return false
+	}
+	v := s.TT.single8(t)
+	if v == nil {
+		return false
+	}
+	s.define(v)
+	tab := s.TT.valueTable(t, v)
+	var build func(lo, n int) string
+	build = func(lo, n int) string {
+		same := true
+		for i := 1; i < n; i++ {
+			if tab[lo+i] != tab[lo] {
+				same = false
+				break
+			}
+		}
+		if same {
+			if t.sort == SortBool {
+				if tab[lo] == 1 {
+					return "true"
+				}
+				return "false"
+			}
+			return constString(&Term{op: OpConst, sort: t.sort, val: tab[lo]})
+		}
+		h := n / 2
+		bit := 0
+		for x := h; x > 1; x >>= 1 {
+			bit++
+		}
+		l, r := build(lo, h), build(lo+h, h)
+		if l == r {
+			return l
+		}
+		return fmt.Sprintf("(ite (= ((_ extract %d %d) %s) #b1) %s %s)", bit, bit, v.name, r, l)
+	}
+	t.gen = mark
+	s.send(fmt.Sprintf("(define-fun t%d () %s %s)", t.id, sortString(t.sort), build(0, 256)))
+	return true
 }
